@@ -50,16 +50,21 @@ def core_part(c, pid="P1", name="Pno"):
     for o in objs:
         if o["k"] in ("note", "rest", "unpitched"):
             by_i[int(o["id"][len(pid) + 1:])] = o
-    for i, j in c.get("ties", []):
-        by_i[i]["tie"] = by_i[j]["id"]
-    for j, n, gtype in c.get("grace", []):
+    for gr in c.get("grace", []):
+        j, n, gtype = gr[:3]
+        # optional 4th field: the pitch index of every grace note of the run (a grace note that is tied has the
+        # pitch of its tie partner); default: the first grace note lies below every main note, the second above
+        gp = gr[3] if len(gr) > 3 else (5, 3)
         main = by_i[j]
         for k in range(n):
-            # the first grace note lies below every main note, the second above (the exporter orders by pitch)
-            g = M.note("%sg%d_%d" % (pid, j, k), main["s"], main["s"], (5, 3)[k], main["voice"], main["staff"], q,
+            g = M.note("%sg%d_%d" % (pid, j, k), main["s"], main["s"], gp[k], main["voice"], main["staff"], q,
                        kind="grace", gtype=gtype)
             g["next"] = "%sg%d_%d" % (pid, j, k + 1) if k + 1 < n else main["id"]
             objs.insert(objs.index(main), g)
+            by_i["g%d_%d" % (j, k)] = g
+    for i, j in c.get("ties", []):
+        # a tie end is the index of an event, or "g<j>_<k>" = the k-th grace note of the run before event j
+        by_i[i]["tie"] = by_i[j]["id"]
     for x in c.get("x", []):
         objs.append(dict(x))
     for k, d in enumerate(c.get("deco", [])):
@@ -232,6 +237,72 @@ def gen_B_grace(double):
                         c = {"sp": "B-grace2", "m": [[0, 4]], "ev": ev, "grace": [[0, r0[0], r0[1]], [1, r1[0], r1[1]]]}
                         if grace_ok(c):
                             yield c
+
+
+def grace_tie_predecessor_written_later(case):
+    """a grace note g that is tied on both sides (x -> g -> y) whose predecessor x is written after g in the
+    file: x lies in the measure of g in a higher voice (voices are written in ascending order)"""
+    if not case.get("grace") or not case.get("ties"):
+        return False
+    ev, meas = case["ev"], case["m"]
+    nxt = {str(a): b for a, b in case["ties"]}
+    for a, b in case["ties"]:
+        if isinstance(b, str) and b in nxt and isinstance(a, int):
+            main = ev[int(b[1:].split("_")[0])]
+            x = ev[a]
+            same_measure = any(lo <= x[1] < hi and lo <= main[1] < hi for lo, hi in meas)
+            if same_measure and x[3] > main[3]:
+                return True
+    return False
+
+
+def gen_B_graceties(chord, written_later=None):
+    """grace notes that take part in ties.  Two 1/4 measures (grid of eighths); a main note m (pitch C4) on every
+    span of 1-2 units inside a measure, voice 1 or 2; before it a grace run g0[,g1] of length 1-2, plain or
+    slashed; optionally a note p of the same pitch that ends where m starts (every span of 1-2 units inside a
+    measure, so also over the barline; voice 1 or 2) and optionally a note f of the same pitch and voice that
+    follows m (one unit, tied m->f: the grace-note tie is then the head of a longer chain).
+    Tie links: every non-empty contiguous run of links of the sequence p -> g0 [-> g1] -> m (every link has a
+    grace note at one end at least); a grace note that is tied has the pitch of the chain, an untied one
+    another pitch.  Runs with a gap (a tie that stops on one grace note and another tie of the same pitch that
+    starts on the next grace note at the same instant) are left out: MusicXML pairs ties by pitch and time and
+    cannot tell these two ties apart (the statement's distinct-pitch premise).
+    chord=True: the same with a second, lower, untied note of the span and voice of m (m is a chord member).
+    written_later: None = all cases; True/False = only the cases with / without a grace note tied on both sides
+    whose predecessor is written after it in the file (grace_tie_predecessor_written_later)."""
+    meas = [(0, 2), (2, 4)]
+    inside = [x for lo, hi in meas for x in spans(lo, hi, (1, 2))]
+    for (s, e) in inside:
+        for v in (1, 2):
+            pre = [None] + [(a, b, pv) for (a, b) in inside if b == s for pv in (1, 2)]
+            fol = [None] + ([(e, e + 1)] if (e, e + 1) in inside else [])
+            for n in (1, 2):
+                for gtype in ("grace", "acciaccatura"):
+                    for p in pre:
+                        for f in fol:
+                            ev = [["n", s, e, v, v, 0]]
+                            seq = ["g0_%d" % k for k in range(n)] + [0]
+                            ties = []
+                            if chord:
+                                ev.append(["n", s, e, v, v, 2])
+                            if p is not None:
+                                seq.insert(0, len(ev))
+                                ev.append(["n", p[0], p[1], p[2], p[2], 0])
+                            if f is not None:
+                                ties.append([0, len(ev)])
+                                ev.append(["n", f[0], f[1], v, v, 0])
+                            links = list(zip(seq, seq[1:]))
+                            for a in range(len(links)):
+                                for b in range(a + 1, len(links) + 1):
+                                    chosen = links[a:b]
+                                    tied = {x for l in chosen for x in l}
+                                    gp = [0 if "g0_%d" % k in tied else (5, 3)[k] for k in range(n)]
+                                    c = {"sp": "B-graceties", "m": [list(m) for m in meas], "ts": [[0, 1, 4]], "ev": ev,
+                                         "grace": [[0, n, gtype, gp]], "ties": ties + [list(l) for l in chosen]}
+                                    if written_later is not None and grace_tie_predecessor_written_later(c) != written_later:
+                                        continue
+                                    if grace_ok(c):
+                                        yield c
 
 
 def gen_A_kinds(kinds, nosym=False, name="A-kinds"):
